@@ -6,7 +6,9 @@ PROP = "C06"
 LEVEL = "exploration"
 TECHNIQUE = "reference-model monitor: per-instruction function attribution of the edited listing vs functionBlocks/Entries/Names mapped to instruction positions"
 RULE = (
-    "same seeded rewrite scenarios as C01 with 0-4 functions (adjacent, "
+    "same seeded rewrite scenarios as C01 (30% with 1-2 whole functions of "
+    "1-4 blocks added through register_insert_function: named once, symbol "
+    "block the only entry, blocks exactly the body) with 0-4 functions (adjacent, "
     "multi-entry, interleaved with function-less code and data), edits at "
     "function boundaries, entry-block deletion, whole-function deletion; "
     "after apply(): every decoded instruction's function (functionBlocks -> "
